@@ -336,3 +336,72 @@ def run(repo: Repo, rep: Report) -> None:  # noqa: F811
     rep.ob("C16.j-carriage-return-as-character-reference", xr, "SPARQLXMLWriter.write_binding", raw[0] if raw else "literal text written", ok,
            "CR is split off and written as &#13;" if ok else
            "the literal's text goes to XMLGenerator.characters() with its carriage returns raw: Literal('x\\ry') is read back as Literal('x\\ny') by every conforming XML parser", node=raw[0] if raw else lit[0])
+
+
+_run_base2 = run
+
+
+def run(repo: Repo, rep: Report) -> None:  # noqa: F811
+    _run_base2(repo, rep)
+    from vlib.cfg import CFG
+
+    # ------------------------------------------------------------------ (k)
+    rep.rule("C16.k-text-layer-keeps-line-ends",
+             "a result reader that wraps a binary source in a text layer does not let that layer translate line ends: io.TextIOWrapper without newline='' (its default is universal "
+             "newlines: every CR and CR LF, also inside a quoted CSV field, becomes LF before the csv module sees it); codecs.getreader() does not translate", floor=1)
+    n_wrap = 0
+    for name in ("rdflib.plugins.sparql.results.csvresults", "rdflib.plugins.sparql.results.tsvresults", "rdflib.plugins.sparql.results.jsonresults", "rdflib.plugins.sparql.results.xmlresults"):
+        mod = repo.mod(name)
+        for c in ast.walk(mod.tree):
+            if isinstance(c, ast.Call) and norm(c.func).split(".")[-1] == "TextIOWrapper":
+                n_wrap += 1
+                nl = [k for k in c.keywords if k.arg == "newline"]
+                ok = bool(nl) and isinstance(nl[0].value, ast.Constant) and nl[0].value.value == ""
+                rep.ob("C16.k-text-layer-keeps-line-ends", mod, mod.qual_of(c) or "<module>", c, ok,
+                       "newline=''" if ok else "TextIOWrapper with default newline translation: a literal containing CR or CR LF parsed from a binary source comes back with LF", node=c)
+            if isinstance(c, ast.Call) and norm(c.func) == "codecs.getreader":
+                n_wrap += 1
+                rep.ob("C16.k-text-layer-keeps-line-ends", mod, mod.qual_of(c) or "<module>", c, True, "codecs stream readers do not translate line ends", node=c)
+    if n_wrap == 0:
+        rep.ob("C16.k-text-layer-keeps-line-ends", repo.mod("rdflib.plugins.sparql.results.csvresults"), "<module>", "no text layer over binary sources", True, "", node=repo.mod("rdflib.plugins.sparql.results.csvresults").tree)
+
+    # ------------------------------------------------------------------ (l)
+    rep.rule("C16.l-results-element-on-every-select-path",
+             "XMLResultSerializer.serialize opens the <results> element (write_results_header) on every path of the SELECT branch before the rows are written - not on demand from "
+             "the per-row code: a result with no rows still needs <results/>, without it the reader finds neither <results> nor <boolean> and rejects the document", floor=1)
+    xr = repo.mod("rdflib.plugins.sparql.results.xmlresults")
+    sf = xr.func("XMLResultSerializer.serialize")
+    g = CFG(sf)
+    hdr = [c for c in own_nodes(sf) if isinstance(c, ast.Call) and isinstance(c.func, ast.Attribute) and c.func.attr == "write_results_header"]
+    loops_ = [n for n in own_nodes(sf) if isinstance(n, ast.For) and "bindings" in norm(n.iter)]
+    if not loops_:
+        raise AnalysisError("XMLResultSerializer.serialize: loop over the rows not found")
+    ok = bool(hdr) and all(g.must_pass_before(g.node_of(l, xr), [g.node_of(h, xr) for h in hdr]) for l in loops_) and not any(any(h is x for x in ast.walk(l)) for h in hdr for l in loops_)
+    rep.ob("C16.l-results-element-on-every-select-path", xr, "XMLResultSerializer.serialize", hdr[0] if hdr else "writer.write_results_header() before the row loop", ok,
+           "<results> opened before the rows, also for zero rows" if ok else
+           "serialize does not open <results> itself: with zero rows the document has no <results> element and cannot be read back", node=hdr[0] if hdr else sf)
+
+    # ------------------------------------------------------------------ (m)
+    rep.rule("C16.m-row-recorded-before-it-is-handed-out",
+             "Result.__iter__ (draining the lazy solution generator) appends a row to the collected list BEFORE yielding it: a consumer that stops after the first row closes the "
+             "generator while it is suspended at the yield, and a row recorded only after the yield would be missing from .bindings and from every serialisation", floor=1)
+    qm = repo.mod("rdflib.query")
+    it = qm.func("Result.__iter__")
+    pairs = 0
+    for blk in ast.walk(it):
+        body = getattr(blk, "body", None)
+        if not isinstance(body, list):
+            continue
+        for b in (body, getattr(blk, "orelse", []) or []):
+            idx_app = [i for i, st in enumerate(b) if isinstance(st, ast.Expr) and isinstance(st.value, ast.Call) and isinstance(st.value.func, ast.Attribute) and st.value.func.attr == "append" and "_bindings" in norm(st.value.func.value)]
+            idx_y = [i for i, st in enumerate(b) if isinstance(st, ast.Expr) and isinstance(st.value, ast.Yield)]
+            for ia in idx_app:
+                pairs += 1
+                ys = [iy for iy in idx_y]
+                # the yield of the same row: in this block or in a nested `if` that precedes the append
+                nested_before = any(isinstance(st, (ast.If, ast.For, ast.While, ast.With)) and any(isinstance(x, ast.Yield) for x in ast.walk(st)) for st in b[:ia])
+                ok = not any(iy < ia for iy in ys) and not nested_before
+                rep.ob("C16.m-row-recorded-before-it-is-handed-out", qm, "Result.__iter__", b[ia], ok,
+                       "recorded first" if ok else "the row is appended after it was yielded: `next(iter(result))` followed by result.serialize() loses the first row", node=b[ia])
+    if pairs == 0:
+        raise AnalysisError("Result.__iter__: recording of drained rows not found")
